@@ -237,10 +237,13 @@ class Gen:
         impl_spec = "::".join(parts[1:-1]).strip()
         i += 1
         sig_expect = []
+        sig_regex = None
         header = []
         while i < len(lines) and lines[i].strip() != "//@body":
             s = lines[i].strip()
-            if s.startswith("//@sig"):
+            if s.startswith("//@sig~"):
+                sig_regex = s[7:].strip()
+            elif s.startswith("//@sig"):
                 sig_expect.append(s[6:].strip())
             elif s.startswith("//@kf "):
                 pass
@@ -295,6 +298,9 @@ class Gen:
         S = self.src(rel)
         f = S.find_fn(impl_spec or "-", name)
         real_sig = norm_ws(re.sub(r"(?m)^\s*#\[[^\]]*\]\s*$", "", f["sig"]))
+        if sig_regex is not None:
+            if not re.fullmatch(sig_regex, real_sig):
+                raise AnchorLost("%s: signature of %s changed\n  expected (regex): %s\n  found:    %s" % (rel, name, sig_regex, real_sig))
         if sig_expect:
             exp = norm_ws(" ".join(sig_expect))
             if exp != real_sig:
